@@ -82,6 +82,30 @@ def run_cases(seed, k, tier):
                             out["viol"].append((f"C14:roundtrip:{kind}:later-ops", "canonicalise after load differs from canonicalise of the original", detail))
                     except Exception as e:
                         out["viol"].append((f"C14:roundtrip:{kind}:later-ops-raise", f"operation on the reloaded object raised {type(e).__name__}: {e}", detail))
+                    # ---- files in the older layouts the loader still supports (0.1: flag named `left`, no prefactor stored;
+                    # 0.2: prefactor stored as the last entry of `tdh_wfns`; 0.3: as 0.4), synthesised from the fresh dump
+                    for ver in ("0.1", "0.2", "0.3"):
+                        try:
+                            raw = dict(np.load(fname, allow_pickle=True))
+                            raw["version"] = ver
+                            if ver in ("0.1", "0.2"):
+                                raw.pop("coeff", None)
+                            if ver == "0.1":
+                                raw["left"] = raw.pop("to_right")
+                            if ver == "0.2":
+                                tdh = np.empty(2, dtype=object)
+                                tdh[0], tdh[1] = np.ones(2), obj.coeff
+                                raw["tdh_wfns"] = tdh
+                            lname = os.path.join(d, f"legacy{ver}.npz")
+                            np.savez(lname, **raw)
+                            old = cls.load(model, lname)
+                            expect = obj.copy()
+                            if ver == "0.1":
+                                expect.coeff = 1
+                            _cmp_chain(expect, old, f"{kind} {gauge} layout {ver}", out["viol"], dict(detail, layout=ver), kind + "-layout" + ver)
+                            out["cases"].append(f"{fam}/{N}/{gauge}/{cplx}/{kind}/{coeff}/layout{ver}")
+                        except Exception as e:
+                            out["viol"].append((f"C14:roundtrip:{kind}-layout{ver}:raises", f"loading a layout-{ver} file raised {type(e).__name__}: {e}", dict(detail, layout=ver)))
                     if out["sample"] is None:
                         out["sample"] = {"roundtrip_case": detail}
         # ---- tree states
